@@ -936,9 +936,13 @@ class FileHashStore(HashStore):
                         # Mark metadata doc for deletion, unless it was already deleted by a
                         # concurrent call after the directory was listed
                         if os.path.isfile(path):
-                            objects_to_delete.append(
-                                self._rename_path_for_deletion(path)
-                            )
+                            try:
+                                objects_to_delete.append(
+                                    self._rename_path_for_deletion(path)
+                                )
+                            except FileNotFoundError:
+                                # Removed by a concurrent call since the check above
+                                pass
                     finally:
                         # Release pid
                         end_sync_debug_msg = (
